@@ -5,6 +5,7 @@ import (
 	"fmt"
 	"reflect"
 	"sort"
+	"strings"
 	"sync/atomic"
 
 	"github.com/protolambda/zrnt/eth2/beacon"
@@ -272,10 +273,62 @@ func SiblingIndependence(run *core.Run, sc *Scenario, st *IndepStats) {
 				continue
 			}
 			x, y := n.Branch(), n.Branch()
+			end := (slot/spe + 2) * spe
+			if strings.HasPrefix(sc.Name, "deposits/") {
+				// registry-changing histories on both siblings: the sibling y runs ahead along the base history FIRST (its
+				// deposits reach the shared pubkey cache), then the copy x takes the deviation and continues with the
+				// base blocks of its own history. A step of x that fails although the same step succeeds on the
+				// reloaded state with a from-scratch context was changed by the sibling's progress.
+				for s2 := slot; s2 <= end && s2 <= sc.Slots; s2++ {
+					if d := sc.Default(s2); d.Skip {
+						y.StepSlots(ctx, s2)
+					} else if r := y.StepBlock(ctx, s2, d.Plan); r.Mismatch != "" {
+						break
+					}
+				}
+				ok := true
+				for s2 := slot; s2 <= end && s2 <= sc.Slots && ok; s2++ {
+					c2 := sc.Default(s2)
+					if s2 == slot {
+						c2 = ch
+					}
+					pre := x.Branch()
+					var r StepResult
+					if c2.Skip {
+						r = x.StepSlots(ctx, s2)
+					} else {
+						r = x.StepBlock(ctx, s2, c2.Plan)
+					}
+					if r.Skipped {
+						ok = false
+					} else if r.Mismatch != "" {
+						ok = false
+						if fresh, err := pre.Reloaded(); err == nil {
+							var r2 StepResult
+							if c2.Skip {
+								r2 = fresh.StepSlots(ctx, s2)
+							} else {
+								r2 = fresh.StepBlock(ctx, s2, c2.Plan)
+							}
+							if r2.Mismatch == "" && !r2.Skipped {
+								run.Report("C15/sibling/step-depends-on-the-sibling", fmt.Sprintf("scenario %s: sibling advanced along the base history to slot %d, then the copy (base up to slot %d, then %q and base blocks): its step at slot %d fails (%s) although the same step succeeds on the reloaded state with a from-scratch context", sc.Name, end, slot-1, ch.String(), s2, r.Mismatch), map[string]interface{}{"scenario": sc.Name})
+							}
+						}
+					}
+				}
+				if !ok {
+					continue
+				}
+				atomic.AddInt64(&st.Branches, 1)
+				hist := fmt.Sprintf("base history up to slot %d; sibling advanced along the base history to slot %d; copy advanced with %q + base blocks", slot-1, end, ch.String())
+				check("the original", n, slot-1, hist)
+				check("the sibling that ran ahead", y, end, hist)
+				check("the copy", x, end, hist)
+				continue
+			}
 			if r := x.StepBlock(ctx, slot, ch.Plan); r.Mismatch != "" || r.Skipped {
 				continue // C01's business
 			}
-			end := (slot/spe + 2) * spe
 			if r := x.StepSlots(ctx, end); r.Mismatch != "" {
 				continue
 			}
